@@ -180,6 +180,11 @@ func main() {
 	}
 
 	// ---- writers
+	// hot keys: writers of the same record back to back (the second one takes the guard while
+	// the first is still inside its Save - flush, event delivery, index maintenance)
+	for w := 0; w < 3; w++ {
+		spawn("hot", w, func(rng *common.Rng) { set(key(rng.Intn(2))); atomic.AddInt64(&writes, 1) })
+	}
 	mkey := func(i int) string { return fmt.Sprintf("m%03d", i) }
 	strVal := func(v string) []byte { return append([]byte{byte(0xa0 + len(v))}, v...) }
 	capFilter := func(state string) *hydrapb.FilterGroup {
